@@ -66,7 +66,7 @@ func ruleC16(c *Ctx, r *Report) {
 		}
 	}
 	// ---- R1: positional flow
-	r.Floor("C16-R1", 7, "window returns (2), startDate=, endDate=, groups/ (2), clusters/ (2)")
+	r.Floor("C16-R1", 11, "window returns (2), startDate=, endDate=, groups/ (2), clusters/ (2), escaped segments (4)")
 	tS := roleTaint(c, true, an.FlagAlloc["atlasLogStartDate"])
 	tE := roleTaint(c, true, an.FlagAlloc["atlasLogEndDate"])
 	// (a) flags -> results of the window function
@@ -114,9 +114,22 @@ func ruleC16(c *Ctx, r *Report) {
 				}
 				format := shape.text()
 				pre, ops := shape.operands()
+				esc := shape.escaped()
 				sp := nr
 				for i, p := range pre {
 					op := peel(ops[i])
+					if strings.HasSuffix(p, "groups/") || strings.HasSuffix(p, "clusters/") {
+						// a name is one path segment: `?`, `#`, `/` or `%` in it (a percent-decoded
+						// host of the connection string, a mistyped project id) must not re-route
+						// the request or cut the window off
+						what := "groups/"
+						if strings.HasSuffix(p, "clusters/") {
+							what = "clusters/"
+						}
+						r.Check(i < len(esc) && esc[i], "C16-R1", fn.Name()+":url-segment-escaped("+what+")"+sfx, c.InstrPos(sp),
+							"the segment after "+what+" is inserted through url.PathEscape",
+							"the name after '"+what+"' is pasted into the request URL as it is: a `?`, `#`, `/` or `%` in it changes the path that is requested or cuts the query (the window) off - the request is no longer the download of that host / project")
+					}
 					switch {
 					case strings.HasSuffix(p, "startDate="):
 						r.Check(t0.Has(op) && !t1.Has(op), "C16-R1", fn.Name()+":url(startDate=)"+sfx, c.InstrPos(sp), "operand after startDate= is the window start", "the operand after 'startDate=' is not the start of the requested window (crossed or lost)")
@@ -369,6 +382,13 @@ func ruleC16(c *Ctx, r *Report) {
 				case *ssa.MakeInterface, *ssa.ChangeInterface:
 					visit(x.(ssa.Value))
 				case *ssa.BinOp, *ssa.If, *ssa.DebugRef:
+				case *ssa.Store:
+					// kept in a local variable (one that a deferred closure captures): its loads are
+					// visited as aliases below
+					if _, isAl := x.Addr.(*ssa.Alloc); !isAl || x.Val != v {
+						okAll = false
+						uses = append(uses, "stored somewhere")
+					}
 				case ssa.CallInstruction:
 					k := calleeKey(x.Common())
 					switch {
@@ -384,7 +404,7 @@ func ruleC16(c *Ctx, r *Report) {
 								}
 							}
 						}
-						if !srcOK || !derivesFrom(x.Common().Args[0], fv, 0) {
+						if !srcOK || !(derivesFrom(x.Common().Args[0], fv, 0) || canon(peel(x.Common().Args[0])) == fv) {
 							okAll = false
 							uses = append(uses, "io.Copy with an unexpected source/destination")
 						}
@@ -399,7 +419,9 @@ func ruleC16(c *Ctx, r *Report) {
 				}
 			}
 		}
-		visit(fv)
+		for _, al := range aliasesOf(fv) {
+			visit(al)
+		}
 		r.Check(okAll && copies == 1, "C16-R5", a.perHost.Name()+":temp-file-writers", c.InstrPos(ct), "temp file is written only by one io.Copy(tmpFile, resp.Body)", fmt.Sprintf("temp file content is not the verbatim response body: copies=%d other uses=%v", copies, uses))
 	}
 
